@@ -88,3 +88,12 @@ pub fn factory_stale(a: &Args) {
     let out = rt.block_on(fp::stale_report(a.u64("qkey")));
     println!("out={}", out.replace('=', "~"));
 }
+
+/// factory_stop fq=<n> wq=<wids>
+pub fn factory_stop(a: &Args) {
+    use ractor::factory::factoryimpl::verif_probe as fp;
+    let rt = tokio::runtime::Builder::new_current_thread().enable_time().build().unwrap();
+    let wq: Vec<usize> = a.list_u128("wq").iter().map(|x| *x as usize).collect();
+    let out = rt.block_on(fp::stop_step(a.usize("fq"), &wq));
+    println!("out={}", out.replace('=', "~"));
+}
